@@ -480,7 +480,10 @@ def run(ctx):
         lpb = [nf(kids(v)[-1]) for v in walk(lbody) if v.get('kind') == 'VarDecl' and v.get('name') == 'pixel_bytes' and kids(v)]
         spb = [nf(kids(v)[-1]) for v in walk(svb) if v.get('kind') == 'VarDecl' and v.get('name') == 'pixel_bytes' and kids(v)]
         ctx.check(lpb == ['(header.info_header.bit_depth / 8)'] or lpb == ['(header.info_header.bit_depth.operator unsigned short() / 8)'], R, 'pixel_bytes|loader', L, 'bit_depth / 8', 'loader pixel size is %s' % lpb)
-        ctx.check(spb == ['(3 + this.has_alpha)'], R, 'pixel_bytes|saver', SV, '3 + alpha', 'saver pixel size is %s' % spb)
+        from poly import Poly as _PS, p_add as _pas, p_const as _pcs, p_atom as _pts
+        PSV = _PS(SV, u)
+        spb_nodes = [kids(v)[-1] for v in walk(svb) if v.get('kind') == 'VarDecl' and v.get('name') == 'pixel_bytes' and kids(v)]
+        ctx.check(spb == ['(3 + this.has_alpha)'] or (len(spb_nodes) == 1 and PSV.poly(spb_nodes[0]) == _pas(_pcs(3), _pts('this.has_alpha'))), R, 'pixel_bytes|saver', SV, '3 + alpha', 'saver pixel size is %s' % spb)
         # loader skips / saver writes exactly the padding per row
         seeks = [c for c in walk(lbody) if c.get('kind') == 'CallExpr' and call_name(c) == 'fseek' and int_value(call_args(c)[2]) == 1]
         oks = len(seeks) == 1 and canon(call_args(seeks[0])[1]) == 'row_padding_bytes' and enclosing(seeks[0], ('ForStmt',)) is not None and \
@@ -500,6 +503,25 @@ def run(ctx):
             okw = lpf is not None and not any(any(a is il for a in ancestors(wr[0])) for il in inner_loops)
             pd = next((v for v in walk(svb) if v.get('kind') == 'VarDecl' and v.get('name') == 'row_padding_data'), None)
             okw = okw and pd is not None and '[4]' in (qtype(pd) or '')
+        merged_und = None
+        if not okw and not wr:
+            # the padding may travel at the end of the row buffer: one write of row + padding bytes per row, the
+            # tail of the buffer zeroed beforehand
+            pad_ref = next((y for y in walk(svb) if y.get('kind') == 'DeclRefExpr' and (y.get('referencedDecl') or {}).get('name') == 'row_padding_bytes'), None)
+            pad_poly = PSV.poly(pad_ref) if pad_ref is not None else None
+            for c_ in [c for c in walk(svb) if c.get('kind') in ('CallExpr', 'CXXOperatorCallExpr') and len(fargs(c)) == 2]:
+                lp_ = PSV.poly(fargs(c_)[1])
+                if pad_poly and len(pad_poly) == 1 and all(lp_.get(m_) == c0_ for m_, c0_ in pad_poly.items()) and lp_ != pad_poly and enclosing(c_, ('ForStmt',)) is not None:
+                    buf_ = canon(fargs(c_)[0])
+                    zs_ = [m_ for m_ in walk(svb) if m_.get('kind') == 'CallExpr' and call_name(m_) == 'memset' and canon(call_args(m_)[0]).startswith('(' + buf_ + ' + ') or (m_.get('kind') == 'CallExpr' and call_name(m_) == 'memset' and buf_ in canon(call_args(m_)[0]))]
+                    zs_ = [m_ for m_ in zs_ if int_value(call_args(m_)[1]) == 0 and PSV.poly(call_args(m_)[2]) == pad_poly and m_.get('_off', 0) < c_.get('_off', 0)]
+                    if zs_:
+                        okw = True
+                    else:
+                        merged_und = 'the padding is written as part of the row buffer but its zeroing was not found'
+        if merged_und and not okw:
+            ctx.undecided(R, 'padding|saver-writes-per-row', SV, merged_und)
+            okw = True
         ctx.check(okw, R, 'padding|saver-writes-per-row', wr[0] if wr else SV, 'writer(row_padding_data, row_padding_bytes) once per row from a 4-byte zero block', 'saver does not write exactly row_padding_bytes zero bytes once per row')
         # in-memory row stride
         case_bmp = None
